@@ -103,6 +103,7 @@ func (ctx *BrokerContext) RequestOffer(id string, proxyType string, natType stri
 	ctx.proxyPolls <- request
 	// Block until an offer is available, or timeout which sends a nil offer.
 	offer := <-request.offerChannel
+	vhook("p.got", id, offer != nil)
 	return offer
 }
 
@@ -116,11 +117,15 @@ func (ctx *BrokerContext) Broker() {
 		go func(request *ProxyPoll) {
 			select {
 			case offer := <-snowflake.offerChannel:
+				vhook("w.offer", snowflake.id)
 				request.offerChannel <- offer
+				vhook("w.forwarded", snowflake.id)
 			case <-time.After(time.Second * ProxyTimeout):
+				vhook("w.timeout", snowflake.id)
 				// This snowflake is no longer available to serve clients.
 				ctx.snowflakeLock.Lock()
 				defer ctx.snowflakeLock.Unlock()
+				vhook("w.locked", snowflake.id, snowflake.index)
 				if snowflake.index != -1 {
 					if request.natType == NATUnrestricted {
 						heap.Remove(ctx.snowflakes, snowflake.index)
@@ -155,6 +160,7 @@ func (ctx *BrokerContext) AddSnowflake(id string, proxyType string, natType stri
 	}
 	ctx.metrics.promMetrics.AvailableProxies.With(prometheus.Labels{"nat": natType, "type": proxyType}).Inc()
 	ctx.idToSnowflake[id] = snowflake
+	vhook("add", id, natType, clients, proxyType)
 	ctx.snowflakeLock.Unlock()
 	return snowflake
 }
